@@ -111,7 +111,10 @@ class Ctx:
                            "./cmd/prebuild", "./cmd/aa-log"], cwd=REPO, timeout=900)
         if rc != 0:
             raise HarnessError("cannot build /repo with -tags verif:\n" + out + err)
-        if worker:
+        if worker and os.environ.get("VERIF_WORKER_BIN"):
+            # development aid (coverage measurement of the generators): a worker built elsewhere from the same sources
+            shutil.copy(os.environ["VERIF_WORKER_BIN"], self.bins + "/vworker")
+        elif worker:
             wdir = os.path.join(VERIF, "worker")
             args = ["go", "build"] + xf + ["-tags", "verif", "-o", self.bins + "/vworker"]
             if os.path.realpath(REPO) != "/repo":
